@@ -761,6 +761,29 @@ func c06Readers(c *Ctx) error {
 	c.P("Definition signature_length_guard : string := %s.", CoqStr(guard))
 	c.P("Definition signature_checked_whole : bool := %s.", c06Bool(whole || (exactGuard && guard != "")))
 
+	// (e4) the compass id ConfirmBatch puts into the checkpoint it verifies against comes from the evm chain info
+	fromCI := false
+	if gcs := Calls(cb.Body, "GetCheckpoint"); len(gcs) == 1 && len(gcs[0].Args) == 1 {
+		arg := strings.Join(strings.Fields(c.Src(gcs[0].Args[0])), "")
+		if strings.HasPrefix(arg, "string(") && strings.HasSuffix(arg, ".SmartContractUniqueID)") {
+			v := strings.TrimSuffix(strings.TrimPrefix(arg, "string("), ".SmartContractUniqueID)")
+			ast.Inspect(cb.Body, func(x ast.Node) bool {
+				as, ok := x.(*ast.AssignStmt)
+				if !ok || len(as.Lhs) < 1 || len(as.Rhs) != 1 || c.Src(as.Lhs[0]) != v {
+					return true
+				}
+				rhs := strings.Join(strings.Fields(c.Src(as.Rhs[0])), "")
+				if strings.HasSuffix(rhs, "EVMKeeper.GetChainInfo(ctx,batch.ChainReferenceID)") {
+					fromCI = true
+				}
+				return true
+			})
+		}
+	}
+	c.P("(* msgServer.ConfirmBatch: the checkpoint it verifies against is batch.GetCheckpoint(string(ci.SmartContractUniqueID)) with")
+	c.P("   ci := EVMKeeper.GetChainInfo(ctx, batch.ChainReferenceID) - the compass the chain is bound to, no secondary record *)")
+	c.P("Definition confirm_compass_id_from_chain_info : bool := %s.", c06Bool(fromCI))
+
 	// (f) valset GetSigningKey: which fields of an account every key-returning exit has compared with the arguments
 	vf, err := c.Parse("x/valset/keeper/keeper.go")
 	if err != nil {
